@@ -27,6 +27,31 @@ func c05Heal(r *rng, id string) {
 	mon := cl.startMonitor()
 	cl.joinAll(200 * time.Millisecond)
 	time.Sleep(5 * time.Second)
+	departed := map[string]bool{}
+	var restarts []string
+	if r.chance(1, 3) {
+		// a process is replaced in place, quickly enough for nobody to notice the gap: same name, same address,
+		// new metadata, its incarnation counter back at the value its peers still hold for it
+		idx := 1 + r.intn(nn-1)
+		v := cl.nodes[idx]
+		v.crash()
+		time.Sleep(time.Duration(20+r.intn(150)) * time.Millisecond)
+		cl.net.mu.Lock()
+		delete(cl.net.nodes, v.tr.addr)
+		cl.net.mu.Unlock()
+		if nv, err := cl.net.newNode(idx, c, cl.t0); err == nil {
+			nv.meta = []byte(fmt.Sprintf("replaced-%d-%s", r.intn(1000), nv.name))
+			nv.m.UpdateNode(0)
+			cl.nodes[idx] = nv
+			seedN := cl.nodes[0]
+			go nv.m.Join([]string{fmt.Sprintf("%s/%s", seedN.name, seedN.tr.addr)})
+			restarts = append(restarts, nv.name)
+			mon.mu.Lock()
+			mon.skip[nv.name] = true
+			mon.mu.Unlock()
+		}
+		time.Sleep(2 * time.Second)
+	}
 	// ---- fault phase ----
 	faultEnd := cl.since() + time.Duration(10+r.intn(30))*time.Second
 	cl.net.mu.Lock()
@@ -49,8 +74,6 @@ func c05Heal(r *rng, id string) {
 		}
 		parts = append(parts, p)
 	}
-	departed := map[string]bool{}
-	var restarts []string
 	setPartitions := func(now time.Duration, healed bool) {
 		cl.net.mu.Lock()
 		cl.net.blocked = map[[2]string]bool{}
